@@ -15,6 +15,7 @@ VERIF = os.path.dirname(os.path.dirname(os.path.abspath(__file__)))
 S = "src/fcp/serde.py"
 E = "src/fcp/encoding.py"
 V = "src/fcp/verifier.py"
+CS = "plugins/fcp_cpp/fcp_cpp/can_static_schema.h"
 
 MUTATIONS = [
     # name, file, old, new, checks expected to catch it
@@ -98,6 +99,22 @@ MUTATIONS = [
     ("cpp-decode-reversed", "plugins/fcp_cpp/fcp_cpp/fcp.h.j2", '    {%- for signal in struct.fields | sort(attribute="field_id") %}\n        auto {{signal.name}} = {{signal.name | to_pascal_case}}Type::Decode(buffer, endianess);', '    {%- for signal in struct.fields | sort(attribute="field_id", reverse=(struct.fields | length) == 5) %}\n        auto {{signal.name}} = {{signal.name | to_pascal_case}}Type::Decode(buffer, endianess);', ["C03"]),
     ("cpp-optional-flag-1bit", "plugins/fcp_cpp/fcp_cpp/decoders.h", "        Unsigned<std::uint8_t, 8>(data_.has_value() ? 1 : 0).Encode(buffer);", "        Unsigned<std::uint8_t, 1>(data_.has_value() ? 1 : 0).Encode(buffer);", ["C03"]),
     ("cpp-string-len-u16", "plugins/fcp_cpp/fcp_cpp/decoders.h", "        Unsigned<std::uint32_t, 32>(data_.size()).Encode(buffer);\n        for (const auto& c: data_) {", "        Unsigned<std::uint32_t, 16>(data_.size()).Encode(buffer);\n        for (const auto& c: data_) {", ["C03"]),
+    ("can-revert-short-bus-copy", CS, "std::min(bus_name.value().size(), bus_name_arr.size())", "4", ["C18"]),
+    ("can-revert-tag-read", CS, "std::string bus_name_str(bus_name.begin(), std::find(bus_name.begin(), bus_name.end(), '\\0'));", "std::string bus_name_str(bus_name.begin(), bus_name.end());", ["C18"]),
+    ("can-msgname-ignores-bus", CS, """if (sid == {{impl.fields.get('id')}} && bus_name_str == "{{impl.fields.get('bus', 'unkn')}}") {""", """if (sid == {{impl.fields.get('id')}}) {""", ["C18"]),
+    ("can-msgname-ignores-id", CS, """if (sid == {{impl.fields.get('id')}} && bus_name_str == "{{impl.fields.get('bus', 'unkn')}}") {""", """if (bus_name_str == "{{impl.fields.get('bus', 'unkn')}}") {""", ["C18"]),
+    ("can-sid-low-byte", CS, """if (sid == {{impl.fields.get('id')}} && bus_name_str""", """if ((sid & 0xFF) == ({{impl.fields.get('id')}} & 0xFF) && bus_name_str""", ["C18"]),
+    ("can-dlc-fixed-8", CS, "static_cast<std::uint8_t>(encoded.value().size()),", "static_cast<std::uint8_t>(8),", ["C18"]),
+    ("can-data-copy-short", CS, "std::copy_n(encoded.value().begin(), encoded.value().size(), data.begin());", "std::copy_n(encoded.value().begin(), std::min<std::size_t>(encoded.value().size(), 7), data.begin());", ["C18"]),
+    ("can-getsid-first-binding", CS, """        if (msg_name == "{{impl.name}}") {
+            return {{impl.fields.get('id')}};
+        }""", """        if (msg_name == "{{impl.name}}" || true) {
+            return {{impl.fields.get('id')}};
+        }""", ["C18"]),
+    ("can-bus-first-char", CS, """bus_name_str == "{{impl.fields.get('bus', 'unkn')}}") {""", """bus_name_str[0] == "{{impl.fields.get('bus', 'unkn')}}"[0]) {""", ["C18"]),
+    ("can-msgname-all-protocols", CS, """        {% for impl in fcp.get_matching_impls("can") %}
+        if (sid ==""", """        {% for impl in fcp.impls if impl.fields.get('id') is not none %}
+        if (sid ==""", ["C18"]),
     ("serde-array-last-elem", S, "    for i in range(type.size):\n        _encode(buffer, fcp, type.underlying_type, data[i])", "    for i in range(type.size):\n        _encode(buffer, fcp, type.underlying_type, data[min(i, 1)])", ["C01", "C02"]),
 ]
 
